@@ -202,7 +202,12 @@ class RecordingAdapter:
         except BaseException as e:
             self._log("initialize-raised", transition, before, error=type(e).__name__)
             raise
-        self._log("initialize", transition, before)
+        extra = {}
+        if self._label.startswith("dual") and RUN is not None and getattr(transition, "integrator", None) is not None:
+            extra["init_probe"] = _probe_init_step_size(chain_state, transition)
+            if isinstance(out, dict):
+                extra["reg_target"] = out.get("log_step_size_reg_target")
+        self._log("initialize", transition, before, **extra)
         return out
 
     def update(self, adapt_state, chain_state, trans_stats, transition):
@@ -224,6 +229,7 @@ class RecordingAdapter:
         mom_before = [None if s.mom is None else np.array(s.mom, copy=True) for s in cs if "mom" in s]
         rng_before = [rng_digest(r) for r in rl]
         as_copy = copy.deepcopy(adapt_states)
+        rng_copies = copy.deepcopy(rl)
         try:
             self._inner.finalize(adapt_states, chain_states, transition, rngs)
         except BaseException as e:
@@ -242,7 +248,70 @@ class RecordingAdapter:
             ],
             rng_advanced=[b != rng_digest(r) for b, r in zip(rng_before, rl)],
             adapt_states=_adapt_states_summary(as_copy),
+            metric_array=_metric_array(getattr(transition, "system", None)),
+            states_after=[snap_state(s_) for s_ in cs],
+            mom_expected=_expected_momenta(transition, cs, rng_copies) if self._label.split("#")[0] in ("var", "cov") else None,
         )
+
+
+def _metric_array(system):
+    m = getattr(system, "metric", None)
+    if m is None or callable(m) or m.shape[0] is None:
+        return None
+    try:
+        return np.array(copy.deepcopy(m).array, copy=True)
+    except Exception:  # noqa: BLE001
+        return None
+
+
+def _expected_momenta(transition, states, rng_copies):
+    """Momenta an independent draw under the *current* metric gives from copies of the
+    generators as they were before finalize (reference for 'momenta refreshed under the
+    new metric'), computed on fresh states so that no cache is shared."""
+    from mici.states import ChainState
+
+    out = []
+    system = getattr(transition, "system", None)
+    if system is None:
+        return None
+    with paused():
+        for s_, r in zip(states, rng_copies):
+            if "mom" not in s_:
+                out.append(None)
+                continue
+            fresh = ChainState(pos=np.array(s_.pos, copy=True), mom=None, dir=1)
+            try:
+                out.append(np.array(system.sample_momentum(fresh, r), copy=True))
+            except Exception:  # noqa: BLE001
+                out.append(None)
+    return out
+
+
+def _probe_init_step_size(chain_state, transition):
+    """One-step energy changes at r, 2r and r/2 (r = step size the search returned),
+    evaluated with the real integrator on fresh copies."""
+    from mici.errors import IntegratorError
+    from mici.states import ChainState
+
+    integ, system = transition.integrator, transition.system
+    r = integ.step_size
+    out = {"r": r}
+    with paused():
+        try:
+            for name, eps in (("dh_r", r), ("dh_2r", 2 * r), ("dh_half", r / 2)):
+                fresh = ChainState(
+                    pos=np.array(chain_state.pos, copy=True), mom=np.array(chain_state.mom, copy=True), dir=chain_state.dir
+                )
+                h0 = float(system.h(fresh))
+                integ.step_size = eps
+                try:
+                    new = integ.step(fresh)
+                    out[name] = abs(h0 - float(system.h(new)))
+                except IntegratorError:
+                    out[name] = "error"
+        finally:
+            integ.step_size = r
+    return out
 
 
 def _adapt_states_summary(adapt_states):
